@@ -291,6 +291,7 @@ def parse_protocol(yaep_c):
     if not decl:
         raise Fail('yaep_parse: declaration of the flags not found')
     flags = ['tok_init_p', 'parse_init_p']
+    saves, restores = [], []
 
     def steps(src, where):
         out = []
@@ -315,6 +316,11 @@ def parse_protocol(yaep_c):
                 continue
             if re.fullmatch(r'n_goto_successes = 0', st):
                 continue
+            mm = re.fullmatch(r'(\w+) = grammar->(\w+)', st)
+            if mm and mm.group(1) == mm.group(2) and where == 'prologue':
+                # a setting of the grammar saved in a local before the handler is installed
+                saves.append(mm.group(1))
+                continue
             raise Fail('yaep_parse (%s): statement not understood: %s' % (where, st[:60]))
         return out
 
@@ -332,6 +338,10 @@ def parse_protocol(yaep_c):
             if mm:
                 out.append('HCall "%s"' % mm.group(1))
                 continue
+            mm = re.fullmatch(r'grammar->(\w+) = (\w+)', st)
+            if mm and mm.group(1) == mm.group(2):
+                restores.append(mm.group(1))
+                continue
             raise Fail('yaep_parse (handler): statement not understood: %s' % st[:60])
         return out
     pre, post, hnd = steps(pre_src, 'prologue'), steps(post_src, 'body'), hsteps(handler_src)
@@ -343,7 +353,27 @@ def parse_protocol(yaep_c):
             fb = func_body(yaep_c, mm.group(1))
             if re.search(r'\b(yaep_malloc|yaep_calloc|yaep_realloc|OS_CREATE|VLO_CREATE|OS_TOP_EXPAND|VLO_EXPAND|create_hash_table)\b', fb):
                 allocs.append(mm.group(1))
-    return pre, hnd, post, bool(decl.group(1)), allocs
+    # a saved local must not be assigned again after the handler is installed (it would be indeterminate after longjmp)
+    reassigned = [v for v in saves if re.search(r'(?<![\w>.])%s\s*(=[^=]|\+\+|--|[-+|&]=)' % v, body[after:])]
+    # settings of the grammar that the library itself assigns outside the setters and yaep_create_grammar
+    SET = ['lookahead_level', 'debug_level', 'one_parse_p', 'cost_p', 'error_recovery_p', 'recovery_token_matches']
+    changed = []
+    for fm in re.finditer(r'^(\w+) \(([^;{}()]*)\)\s*\{', yaep_c, re.M):
+        fn = fm.group(1)
+        if fn.startswith('yaep_set_') or fn in ('yaep_create_grammar', 'main'):
+            continue
+        try:
+            fb = func_body(yaep_c, fn)
+        except Exception:
+            continue
+        for f in SET:
+            if re.search(r'grammar\s*->\s*%s\s*=[^=]' % f, fb) and f not in changed:
+                if fn == 'yaep_parse' and f in restores:
+                    # the restoring assignment of the handler itself
+                    if len(re.findall(r'grammar\s*->\s*%s\s*=[^=]' % f, fb)) == 1:
+                        continue
+                changed.append(f)
+    return pre, hnd, post, bool(decl.group(1)), allocs, saves, restores, reassigned, changed
 
 
 def zlit(v):
@@ -434,6 +464,21 @@ def main():
     if not m or not m2:
         raise Fail('check_cached_transition_set: distance threshold / origin comparison not in the expected shape')
     L.append('Definition cache_thr : Z := %s.   (* start situations with distance <= cache_thr are not compared *)' % m.group(1))
+    # the loop of the validity test visits every start situation of the cached set
+    mh = re.search(r'for\s*\(([^;]*);([^;]*);([^)]*)\)', b)
+    if not mh:
+        raise Fail('check_cached_transition_set: loop not found')
+    hdr = [re.sub(r'\s+', '', x) for x in mh.groups()]
+    covers = (hdr == ['i=set->core->n_start_sits-1', 'i>=0', 'i--'] or hdr == ['i=0', 'i<set->core->n_start_sits', 'i++'])
+    L.append('Definition cache_check_visits_all_start_sits : bool := %s.   (* loop header: %s *)' % ('true' if covers else 'false', '; '.join(hdr)))
+    # an error recovery rewrites the parsing list: goto sets saved before it must not be used after it
+    bp = strip_preproc(func_body(yaep_c, 'build_pl'))
+    ok = (re.search(r'->\s*n_recoveries\s*\[\s*i\s*\]\s*=\s*n_recoveries\s*;', bp) and
+          re.search(r'->\s*n_recoveries\s*\[\s*i\s*\]\s*==\s*n_recoveries\s*&&\s*check_cached_transition_set', bp) and
+          re.search(r'error_recovery\s*\(\s*&start\s*,\s*&stop\s*\)\s*;\s*n_recoveries\s*\+\+\s*;', bp) and
+          re.search(r'n_recoveries\s*=\s*0\s*;', bp) and
+          len(re.findall(r'\berror_recovery\s*\(', bp)) == 1)
+    L.append('Definition cache_entries_carry_recovery_number : bool := %s.' % ('true' if ok else 'false'))
     # the two places whose sets the validity test compares, and the place the completer of build_new_set looks at
     m3 = re.search(r'pl\s*\[([^\]]+)\]\s*!=\s*pl\s*\[([^\]]+)\]', b)
     ren = {'pl_curr': 'k', 'place': 'p', 'dist': 'd'}
@@ -480,6 +525,33 @@ def main():
     first_use = re.search(r'code\s*\+\+', b)
     clob = re.search(r'\(\s*code\s*=\s*setjmp', b) or re.search(r'[^=!<>]\bcode\s*=\s*[^=]', b[m.end():first_use.start() if first_use else None])
     L.append('Definition implicit_code_clobbered : bool := %s.' % ('true' if clob else 'false'))
+    # the code of a character constant: the byte between the quotes, read as unsigned char or as plain (signed) char
+    m = re.search(r'term\.code\s*=\s*(\(\s*unsigned\s+char\s*\)\s*)?term\.repr\s*\[\s*1\s*\]\s*;', sgramm)
+    if not m:
+        raise Fail('sgramm.y: the assignment of the code of a character constant was not found')
+    L.append('Definition char_const_code_unsigned : bool := %s.' % ('true' if m.group(1) else 'false'))
+    L.append('')
+
+    # robustness facts of yaep.c (each one states how the source avoids a defect that was found and repaired)
+    b = func_body(yaep_c, 'term_set_insert')
+    ie, iv = b.find('*entry ='), b.find('VLO_ADD_MEMORY')
+    if ie < 0 or iv < 0:
+        raise Fail('term_set_insert: entry assignment / vector addition not found')
+    L.append('(* the new terminal set is entered into the hash table after it has been added to the vector (the addition can fail) *)')
+    L.append('Definition term_set_entered_after_vector_add : bool := %s.' % ('true' if ie > iv else 'false'))
+    m = re.search(r'struct\s+sit\s*\{[^}]*?\b(short|int|long|char)\s+pos\s*;', yaep_c)
+    if not m:
+        raise Fail('struct sit: member pos not found')
+    L.append('(* the type of the dot position of a situation *)')
+    L.append('Definition sit_pos_is_int : bool := %s.' % ('true' if m.group(1) in ('int', 'long') else 'false'))
+    b = func_body(yaep_c, 'prune_to_minimal')
+    sat = re.search(r'if\s*\(\s*node->val\.anode\.cost\s*>\s*INT_MAX\s*-\s*\*cost\s*\)\s*node->val\.anode\.cost\s*=\s*INT_MAX\s*;\s*else\s*node->val\.anode\.cost\s*\+=\s*\*cost\s*;', b)
+    plain = re.findall(r'node->val\.anode\.cost\s*\+=', b)
+    L.append('(* minimal cost pruning: the sum of costs is kept in the range of int; the visit mark is the complement *)')
+    L.append('Definition prune_sum_saturates : bool := %s.' % ('true' if sat and len(plain) == 1 else 'false'))
+    neg = re.findall(r'-\s*node->val\.anode\.cost\s*-\s*1', yaep_c)
+    cpl = re.findall(r'~\s*node->val\.anode\.cost', yaep_c)
+    L.append('Definition visit_mark_is_complement : bool := %s.' % ('true' if not neg and len(cpl) >= 3 else 'false'))
     L.append('')
 
     # hash table expressions (C and C++)
@@ -501,7 +573,7 @@ def main():
         L.append('Definition ht_new_size_%s (n : Z) : Z := %s.' % (tag, c_expr_to_gallina(m.group(1), ren)))
     L.append('')
 
-    pre, hnd, post, vol, allocs = parse_protocol(yaep_c)
+    pre, hnd, post, vol, allocs, saves, restores, reassigned, changed = parse_protocol(yaep_c)
     L.append('(* init / fin / flag protocol of yaep_parse around its setjmp (C branch, debug printing dropped) *)')
     L.append('Inductive pstep := PCall (f : string) | PSet (flag : string) (v : bool).')
     L.append('Inductive hstep := HCall (f : string) | HIf (flag : string) (f : string).')
@@ -510,6 +582,11 @@ def main():
     L.append('Definition parse_body : list pstep := [%s]%%string.' % '; '.join(post))
     L.append('Definition parse_flags_volatile : bool := %s.' % ('true' if vol else 'false'))
     L.append('Definition parse_prologue_allocating_calls : list string := [%s]%%string.' % '; '.join('"%s"' % a for a in allocs))
+    L.append('(* settings of the grammar assigned by the library outside the setters; those saved before setjmp, restored by the handler *)')
+    L.append('Definition settings_changed_during_parse : list string := [%s]%%string.' % '; '.join('"%s"' % a for a in changed))
+    L.append('Definition settings_saved_before_setjmp : list string := [%s]%%string.' % '; '.join('"%s"' % a for a in saves))
+    L.append('Definition settings_restored_by_handler : list string := [%s]%%string.' % '; '.join('"%s"' % a for a in restores))
+    L.append('Definition saved_settings_reassigned_later : list string := [%s]%%string.' % '; '.join('"%s"' % a for a in reassigned))
     L.append('')
 
     open(out, 'w').write('\n'.join(L) + '\n')
